@@ -149,11 +149,13 @@ def aux_refs(ctx):
         holder.aux_data["u"] = g.AuxData(list(uu), "sequence<UUID>")
         holder.aux_data["m"] = g.AuxData({u: g.Offset(u, 7) for u in uu}, "mapping<UUID,Offset>")
         holder.aux_data["s"] = g.AuxData({(u, 1) for u in uu}, "set<tuple<UUID,uint8_t>>")
+        holder.aux_data["w"] = g.AuxData([g.Variant(0, u) if k % 2 else g.Variant(1, g.Offset(u, k)) for k, u in enumerate(uu)],
+                                         "sequence<variant<UUID,Offset,string>>")
     buf = io.BytesIO()
     ir.save_protobuf_file(buf)
     first = g.IR.load_protobuf_file(io.BytesIO(buf.getvalue()))
     for holder in [first] + list(first.modules):     # an earlier load of the same file, fully read
-        for k in ("u", "m", "s"):
+        for k in ("u", "m", "s", "w"):
             holder.aux_data[k].data
     ir2 = g.IR.load_protobuf_file(io.BytesIO(buf.getvalue()))
     n = 0
@@ -161,7 +163,8 @@ def aux_refs(ctx):
         seq = holder.aux_data["u"].data
         mp = holder.aux_data["m"].data
         st = holder.aux_data["s"].data
-        items = list(zip(uu, seq)) + [(k.uuid if isinstance(k, g.Node) else k, k) for k in mp] + \
+        vs = [x.val if x.index == 0 else x.val.element_id for x in holder.aux_data["w"].data]
+        items = list(zip(uu, seq)) + list(zip(uu, vs)) + [(k.uuid if isinstance(k, g.Node) else k, k) for k in mp] + \
             [(v.element_id.uuid if isinstance(v.element_id, g.Node) else v.element_id, v.element_id) for v in mp.values()] + \
             [(t[0].uuid if isinstance(t[0], g.Node) else t[0], t[0]) for t in st]
         for u, got in items:
@@ -174,7 +177,8 @@ def aux_refs(ctx):
                                        "observed": repr(got)[:200], "history": [], "signature": "auxref:%s" % type(got).__name__})
     ctx.evaluations += n
     ctx.stages.append({"stage": "auxdata-references", "entries_checked": n,
-                       "tables": ["sequence<UUID>", "mapping<UUID,Offset>", "set<tuple<UUID,uint8_t>>"],
+                       "tables": ["sequence<UUID>", "mapping<UUID,Offset>", "set<tuple<UUID,uint8_t>>",
+                                  "sequence<variant<UUID,Offset,string>>"],
                        "levels": ["ir", "module"]})
     ctx.log("aux references: %d entries at IR and module level" % n)
 
@@ -269,8 +273,8 @@ def plan_c18(ctx):
     r = run_tlc_config("Proto_deq", emit=True, consts=c, action_constraints=["SweepAfterReload"])
     stages.stage_graph(ctx, "Proto_deq", consts=c, result=r)
     # ... and a second step (which may revert the first): equal again iff the content is the same again
-    c3 = consts_for({"scal", "tags", "parent", "sym", "reload", "shadow"},
-                    SweepOps={"scal", "tag.add", "tag.del", "setparent", "sym.payload"}, SweepMode=True,
+    c3 = consts_for({"scal", "tags", "parent", "sym", "reload", "shadow", "cfg.small"},
+                    SweepOps={"scal", "tag.add", "tag.del", "setparent", "sym.payload", "cfg.add", "cfg.discard"}, SweepMode=True,
                     ScalDom=dict(configs.proto_base(universe.SCHEMA)["ScalDom"],
                                  **{k: {"E0", "E1"} for k in ("isa", "file_format", "byte_order", "decode_mode")},
                                  name={"s0", "s1"}, binary_path={"s0"}, preferred_addr={"0", "MAX64"},
